@@ -17,6 +17,7 @@ import PyTealV.Cmd.C14
 import PyTealV.Cmd.C18
 import PyTealV.Cmd.Arc4
 import PyTealV.Cmd.C19
+import PyTealV.Cmd.C11
 namespace PyTealV.Cmd
 
 def extraCommands : List (String × (List String → String)) := [
@@ -57,7 +58,8 @@ def extraCommands : List (String × (List String → String)) := [
   ("arc4-decode", Arc4.decodeCmd),
   ("arc4-norm", Arc4.normCmd),
   ("c19-assignable", C19.assignableCmd),
-  ("c19-classes", C19.classesCmd)
+  ("c19-classes", C19.classesCmd),
+  ("c11-run", C11.runCmd)
 ]
 
 def dispatch (cmd : String) (args : List String) : Option String :=
